@@ -37,8 +37,22 @@ LPOfSt(st) == [rows |-> st.rows, lhs |-> st.lhs, rhs |-> st.rhs, lo |-> st.lo, u
 StShapeOK(st) == /\ Len(st.rows) = st.nr /\ Len(st.lhs) = st.nr /\ Len(st.rhs) = st.nr
                  /\ Len(st.lo) = st.nc /\ Len(st.up) = st.nc /\ Len(st.obj) = st.nc /\ Len(st.cols) = st.nc
                  /\ \A i \in 1..st.nr : WellFormedVec(st.rows[i], st.nc)
+\* C09: the stored LP is the user's LP scaled by exact powers of two; infinite bounds and sides stay infinite
+ScaleNum(x, e) == IF BRIsFinite(x) THEN BRMulPow2(x, e) ELSE x
+ScaledFails(p, st) ==
+   IF ~st.hasInternal THEN {} ELSE
+   LET n == st.internal IN
+   IF Len(n.rexp) # NR(p) \/ Len(n.cexp) # NC(p) \/ Len(n.rows) # NR(p) THEN {"Scaled:Shape"} ELSE
+   Fail("Scaled:Matrix", \A i \in 1..NR(p) : n.rows[i] = [k \in 1..Len(p.rows[i]) |-> <<p.rows[i][k][1], BRMulPow2(p.rows[i][k][2], n.rexp[i] + n.cexp[p.rows[i][k][1] + 1])>>])
+   \cup Fail("Scaled:Lhs", n.lhs = [i \in 1..NR(p) |-> ScaleNum(p.lhs[i], n.rexp[i])])
+   \cup Fail("Scaled:Rhs", n.rhs = [i \in 1..NR(p) |-> ScaleNum(p.rhs[i], n.rexp[i])])
+   \cup Fail("Scaled:Lower", n.lo = [j \in 1..NC(p) |-> ScaleNum(p.lo[j], -n.cexp[j])])
+   \cup Fail("Scaled:Upper", n.up = [j \in 1..NC(p) |-> ScaleNum(p.up[j], -n.cexp[j])])
+   \cup Fail("Scaled:Obj", n.maxobj = [j \in 1..NC(p) |-> BRMulPow2(BRMul(IF p.sense = 1 THEN "1" ELSE "-1", p.obj[j]), n.cexp[j])])
+
 ProjFails(s, st) ==
    { "R:" \o n : n \in LPEq(s.rlp, st) }
+   \cup (IF LPEq(s.rlp, st) = {} THEN ScaledFails(s.rlp, st) ELSE {})
    \cup Fail("RowTypeReal", st.nr = NR(s.rlp) => st.rtype = [i \in 1..NR(s.rlp) |-> RowType(s.rlp.lhs[i], s.rlp.rhs[i])])
    \cup Fail("Offset", st.offset = s.rlp.offset) \cup Fail("OffsetParam", st.offsetParam = s.offsetPar)
    \cup Fail("SenseParamAgrees", st.senseParam = st.sense)
@@ -142,6 +156,9 @@ TVSetReal ==
                   [] Ev.p = "FEASTOL" /\ Ev.ret -> [s EXCEPT !.ftol = Ev.v]
                   [] Ev.p = "OPTTOL" /\ Ev.ret -> [s EXCEPT !.otol = Ev.v]
                   [] Ev.p = "EPSILON_ZERO" /\ Ev.ret -> [s EXCEPT !.epsz = Ev.v]
+                  [] Ev.p = "TIMELIMIT" /\ Ev.ret -> [s EXCEPT !.tlimit = Ev.v]
+                  [] Ev.p = "OBJLIMIT_LOWER" /\ Ev.ret -> [s EXCEPT !.objlo = Ev.v]
+                  [] Ev.p = "OBJLIMIT_UPPER" /\ Ev.ret -> [s EXCEPT !.objup = Ev.v]
                   [] OTHER -> s
       IN Step(ProjFails(s1, Ev.st) \cup OthersFails(Ev.o), Ev.o, s1, memo,
               IF Ev.p = "OBJ_OFFSET" THEN Forget(Ev.o) ELSE KeepT(Ev.o))
@@ -150,7 +167,7 @@ TVSetReal ==
 TVSetSettingsFrom ==
    /\ Ev.a = "setSettingsFrom" /\ Ev.o \in Live
    /\ LET s == objs[Ev.o]  g == Ev.g
-          s1 == [s EXCEPT !.rlp.sense = g.sense, !.rlp.offset = g.offset, !.offsetPar = g.offset, !.ftol = g.ftol, !.otol = g.otol, !.epsz = g.epsz,
+          s1 == [s EXCEPT !.rlp.sense = g.sense, !.rlp.offset = g.offset, !.offsetPar = g.offset, !.ftol = g.ftol, !.otol = g.otol, !.epsz = g.epsz, !.tlimit = g.tlimit, !.objlo = g.objlo, !.objup = g.objup,
                           !.iterlimit = g.iterlimit, !.ensureray = g.ensureray]
       IN Step(Fail("SetSettingsKeepsSync(harness)", g.sync = s.sync) \cup ProjFails(s1, Ev.st) \cup OthersFails(Ev.o),
               Ev.o, s1, memo, Forget(Ev.o))
@@ -254,10 +271,25 @@ TVDestroy ==
       THEN /\ objs' = [k \in Live \ {Ev.o} |-> objs[k]] /\ memo' = memo /\ truth' = truth /\ l' = l + 1
       ELSE PrintT(<<"GUARDFAIL", l, Ev.a, OthersFails(Ev.o)>>) /\ FALSE
 
+\* C09 on a bare SPxLPBase: scale (exponents chosen by the code are logged), then unscale
+BareLP(b) == [rows |-> b.rows, lhs |-> b.lhs, rhs |-> b.rhs, lo |-> b.lo, up |-> b.up, obj |-> b.maxobj, sense |-> 1, offset |-> "0"]
+TVScalerBare ==
+   /\ Ev.a = "scalerBare"
+   /\ LET p == BareLP(Ev.orig)
+          fails == Fail("Unscale:Rows", Ev.back.rows = Ev.orig.rows) \cup Fail("Unscale:Cols", Ev.back.cols = Ev.orig.cols)
+                   \cup Fail("Unscale:Lhs", Ev.back.lhs = Ev.orig.lhs) \cup Fail("Unscale:Rhs", Ev.back.rhs = Ev.orig.rhs)
+                   \cup Fail("Unscale:Lower", Ev.back.lo = Ev.orig.lo) \cup Fail("Unscale:Upper", Ev.back.up = Ev.orig.up)
+                   \cup Fail("Unscale:Obj", Ev.back.maxobj = Ev.orig.maxobj)
+                   \cup ScaledFails(p, [hasInternal |-> TRUE, internal |-> [rexp |-> Ev.rexp, cexp |-> Ev.cexp, rows |-> Ev.mid.rows, lhs |-> Ev.mid.lhs,
+                                                                             rhs |-> Ev.mid.rhs, lo |-> Ev.mid.lo, up |-> Ev.mid.up, maxobj |-> Ev.mid.maxobj]])
+                   \cup Fail("Scaled:ColView", Ev.mid.cols = ColView(BareLP(Ev.mid)))
+      IN IF fails = {} THEN UNCHANGED <<objs, memo, truth>> /\ l' = l + 1
+         ELSE PrintT(<<"GUARDFAIL", l, Ev.a, fails>>) /\ FALSE
+
 Init == objs = <<>> /\ memo = NoMemo /\ truth = <<>> /\ l = 1
 Next == /\ l <= Len(Tr)
         /\ \/ TVReset \/ TVCreate \/ TVMod \/ TVSetInt \/ TVSetBool \/ TVSetReal \/ TVSetSettingsFrom \/ TVSync \/ TVWitness
-           \/ TVOptimize \/ TVSetBasis \/ TVClearBasis \/ TVQueryBasis \/ TVCopy \/ TVDestroy
+           \/ TVOptimize \/ TVSetBasis \/ TVClearBasis \/ TVQueryBasis \/ TVCopy \/ TVDestroy \/ TVScalerBare
 Spec == Init /\ [][Next]_vars
 
 \* acceptance: one state per consumed line plus the initial state
